@@ -527,7 +527,7 @@ class Gen:
     def pattern(self, avoid, allow_end=False):
         rng = self.rng
         r = rng.random()
-        if allow_end and self.p["eof"] and r < 0.12:
+        if allow_end and self.p["eof"] and r < self.p.get("end_prob", 0.12):
             return N("end")
         if r < self.p["regex_prob"]:
             return self.regex(avoid)
@@ -765,7 +765,16 @@ class Gen:
                 handler, o2, po2, _ = self.block(ctx, depth - 1, set(), nmax=2)
             return N("try", body=body, reasons=reasons, handler=handler), set(o) | set(o2), po or po2, False
         if kind == "foreach":
-            body, o, po, term = self.block(ctx, 0, avoid, must_start_match="strict", nmax=2)
+            saved_eof = self.p["eof"]
+            self.p["eof"] = False
+            self._in_foreach = getattr(self, "_in_foreach", 0) + 1
+            try:
+                body, o, po, term = self.block(ctx, 0, avoid, must_start_match="strict", nmax=2)
+            finally:
+                self.p["eof"] = saved_eof
+                self._in_foreach -= 1
+            if saved_eof:
+                body = [s for s in body if s.kind != "wait"]
             body = [s for s in body if s.kind not in ("finish", "break")] or [N("match", p=self.literal(avoid))]
             do = [self.action(ctx, strict_ok=True, in_foreach=True) for _ in range(rng.randrange(1, 3))]
             o = set()
